@@ -30,12 +30,7 @@ type c12Desc struct {
 	strat            lint.MergeStrategy
 }
 
-func c12Choose(n int) int {
-	k := nondetInt()
-	vassume(k >= 0)
-	vassume(k < n)
-	return vconcrete(k)
-}
+func c12Choose(n int) int { return vchoose(n) }
 
 func c12Diag(d c12Desc, build string) diagnostic {
 	var x diagnostic
